@@ -314,7 +314,7 @@ PROPS["C01"] = dict(
     assumptions=["parameters of the types an argument map can carry (Int, Bool, Bytes, Address, UtxoRef)", "one resolution pass with a given fee (convergence is C05)", "min_utxo is exercised by C05/C20, not here"],
     check_names={1: "lowering outcome kind agrees with the model", 2: "lowered IR agrees", 3: "pipeline outcome kind agrees", 4: "decoded transaction = model pipeline's transaction",
                  101: "inputs are the UTxOs assigned to the input blocks", 102: "outputs (address, lovelace, native assets, inline datum; order) are what the source denotes",
-                 103: "mint field = mints - burns as denoted", 104: "validity interval", 105: "reference inputs", 106: "collateral inputs", 107: "metadata", 108: "fee",
+                 103: "mint field = mints - burns as denoted", 104: "validity interval", 105: "reference inputs", 106: "collateral inputs", 107: "metadata", 108: "fee", 109: "inline datums equal the denoted data (independently of the amounts)",
                  110: "the implementation built a transaction for a program the semantics gives no meaning to",
                  161: "another white-space / comment layout of the same program gives different transaction bytes"},
 )
@@ -333,7 +333,10 @@ PROPS["C12"] = dict(
     trusted_base=PEG_TB, assumptions=["texts up to 2500 bytes, nesting up to 64"],
     keep_ids=_only(lambda i: i == 1 or 120 <= i < 130),
     check_names={1: "acceptance by the generated grammar under Peg.v differs from pest's verdict (or the interpreter ran out of fuel)",
-                 121: "parse_string panicked", 122: "analyze panicked", 123: "no answer within 10 s"},
+                 121: "parse_string panicked", 122: "analyze panicked", 123: "no answer within 10 s",
+                 124: "no answer within 20 s on a small shaped input (child process)", 125: "the front end aborts on a small shaped input (child process, 3 GB)",
+                 126: "locals expanded by copy: exponential in reuse (recorded finding)"},
+    classify=lambda ids, text: "locals_fanout" if set(ids) == {126} else None,
 )
 PROPS["C19"] = dict(
     level="proof", runner="C19", uses_gen=True, model_files=["Base.v", "Peg.v", "gen/Grammar.v"], proof_files=["Peg_proofs.v"], check_files=["Peg_check.v"],
